@@ -4,10 +4,45 @@ import json
 from pathlib import Path
 
 BASELINE = ("cd /repo && /venv/bin/python -m pytest -ra -q -p no:cacheprovider --timeout=900 "
-            "--continue-on-collection-errors --no-cov")
+            "--continue-on-collection-errors")
+
+RETRY_TECH = ("TLC exhaustive check of RetryLoop.tla (implementation-shaped model M) against the RetryMon.tla "
+              "monitors (P) on a focused configuration; every terminal behaviour exported by TLC replayed "
+              "through the real sync and async runners (call/execute) and compared event by event; "
+              "differing and random wide-constant traces validated by TLC (RetryTrace.tla) against P "
+              "(verdict) and M (conformance)")
+RETRY_NOTE = ("virtual monotonic clock (ticks of 2**-6 s) advancing only inside the operation and the sleeper; "
+              "erratic wall clock; observation through public callbacks only; bounds in spec/RetryMC_<id>*.cfg")
+
+
+def retry(text, ref):
+    return ("model_checking", RETRY_TECH, text, RETRY_NOTE, ref)
+
 
 CHECKS = {
     # id: (category, technique, text, note, design_ref)
+    "C01": retry("M |= caps monitor (global, per-class, UNKNOWN, non-retryable, fresh counters per run) "
+                 "exhaustively for max_attempts 0..4 x per-class limits x UNKNOWN caps x both causes x 2 runs; "
+                 "real runners conform to M on every exported behaviour", "5/C01"),
+    "C02": retry("M |= deadline-envelope monitor for every ordering/equality of elapsed vs deadline at the "
+                 "three clock-reading sites, sleeper overshoot and non-sleeping sleeper; plus a differential "
+                 "of each behaviour under three wall-clock patterns", "5/C02"),
+    "C03": retry("M |= the retry-iff-permitted biconditional (hard stop conditions computed by the monitor from "
+                 "its own counters, budget, abort, handler, post-sleep deadline) on the interaction model "
+                 "(864 configurations)", "5/C03"),
+    "C04": retry("M |= call()-delivery monitor (identity of returned/raised object, RetryExhaustedError fields) "
+                 "for mixed exception/result histories and every stop reason", "5/C04"),
+    "C05": retry("M |= back-off data-flow monitor: which strategy, its arguments, sanitised and capped value "
+                 "propagated to event, handler, before_sleep, sleeper, next prev_sleep_s and next_sleep_s, for all "
+                 "sanitiser classes at every retry index and context/legacy signatures", "5/C05"),
+    "C11": retry("M |= execute()-outcome monitor (ok/value/stop_reason/attempts/last_*/cause/next_sleep_s, only "
+                 "cancellation kinds propagate)", "5/C11"),
+    "C13": retry("M |= abort/cancellation monitor: abort polls before every attempt and sleep, nothing after an abort "
+                 "request, cancellation kinds from operation, before_sleep and sleeper propagate unchanged", "5/C13"),
+    "C14": retry("M |= event-stream monitor: retry(i)* then exactly one terminal event, tags vs final failure and "
+                 "delivered stop reason, metric/log sink parity", "5/C14"),
+    "C16": retry("M |= sleep-handler protocol monitor for all decision sequences, before_sleep present/absent, "
+                 "policy-level / call-level / both placements (decoy callbacks), awaitable variants", "5/C16"),
     "C06": ("model_checking",
             "TLC exhaustive check of Breaker.tla (deque model M vs unpruned-log reference P) + replay of "
             "every transition of M's exported graph on the real CircuitBreaker + TLC trace validation "
